@@ -154,3 +154,13 @@ pub fn must<R>(tag: &str, f: impl FnOnce() -> R, then: impl FnOnce(R)) {
         Err(s) => must_not_stop(&format!("{}: must not panic or fail", tag), &s),
     }
 }
+
+/// Like `must`, but a logarithm/square-root domain event (argument at a singularity, e.g. ln 0) ends the path
+/// quietly: such points are outside the identities being compared.
+pub fn must_off_singularities<R>(tag: &str, f: impl FnOnce() -> R, then: impl FnOnce(R)) {
+    match catch(f) {
+        Ok(r) => then(r),
+        Err(Stop::Domain { what, .. }) => { note(format!("{}: path through a {} singularity is outside the comparison", tag, what)); check_that(true, || String::new()); }
+        Err(s) => must_not_stop(&format!("{}: must not panic or fail", tag), &s),
+    }
+}
